@@ -52,7 +52,12 @@ pub struct FeelDate(i32, u8, u8);
 
 impl std::fmt::Display for FeelDate {
   fn fmt(&self, f: &mut std::fmt::Formatter<'_>) -> std::fmt::Result {
-    write!(f, "{:04}-{:02}-{:02}", self.0, self.1, self.2)
+    // the year has at least four digits, the minus sign of a negative year is not one of them
+    if self.0 < 0 {
+      write!(f, "{:05}-{:02}-{:02}", self.0, self.1, self.2)
+    } else {
+      write!(f, "{:04}-{:02}-{:02}", self.0, self.1, self.2)
+    }
   }
 }
 
